@@ -40,7 +40,15 @@ pub fn run(ctx: &Ctx, rep: &mut Report) {
             // l transmitted bits = n characters with fill 6n - l; every (n, fill) pair occurs
             let contents = if ctx.thorough() { 96 } else { 24 };
             for c in 0..=contents {
-                let mut bits = if c == contents { Bits::ones(l) } else { Bits::random(l, &mut r) };
+                // random contents, plus all-ones (a fabricated field cannot hide as zero) and
+                // all-zero (an element that is present but zero must still be counted)
+                let mut bits = if c == contents {
+                    Bits::ones(l)
+                } else if c + 1 == contents {
+                    Bits::zeros(l)
+                } else {
+                    Bits::random(l, &mut r)
+                };
                 if l >= 6 {
                     bits.put(0, 6, t as u64);
                 } else if l > 0 {
@@ -95,6 +103,25 @@ pub fn run(ctx: &Ctx, rep: &mut Report) {
             continue;
         }
         item += 1;
+        // corner values (0, 1, max-1, max) of every pair of neighbouring reference fields, of any
+        // kind: an element whose fields are all zero is still an element
+        let mut fl = super::c04::fields_of(b, &mut r, None);
+        fl.sort_by_key(|f| f.start);
+        for w in fl.windows(2) {
+            let corners = |width: usize| -> [u64; 4] {
+                let max = if width >= 64 { u64::MAX } else { (1u64 << width) - 1 };
+                [0, 1.min(max), max.saturating_sub(1), max]
+            };
+            for va in corners(w[0].width as usize) {
+                for vb in corners(w[1].width as usize) {
+                    let mut bits = gen::gen_message(b, &mut r);
+                    bits.put(w[0].start as usize, w[0].width as usize, va);
+                    bits.put(w[1].start as usize, w[1].width as usize, vb);
+                    gen::run_message_mask(rep, PID, mask, &bits, Via::Raw, b.name);
+                    rep.count("pair-corner");
+                }
+            }
+        }
         for i in 0..ctx.budget(3000, 60_000) {
             let bits = gen::gen_message(b, &mut r);
             let via = [Via::Raw, Via::Armor, Via::Line][(i % 3) as usize];
